@@ -48,23 +48,63 @@ def result_type(kind):
             'fromstr_header': "std::result::Result<v1::model::Header<'static>, v1::error::ParseError>"}[kind]
 
 
-def annotate(prog, kind, paths):
-    """classify each outcome by *executing the MIR* of PartialResult::{is_incomplete,is_complete}"""
+def annotate(prog, kind, paths, ctx=None):
+    """classify each outcome by *executing the MIR* of PartialResult::{is_incomplete,is_complete}.
+    Normally the flags only depend on the (concrete) variant. If an edited classification looks into a payload
+    (e.g. `Utf8Error::error_len`), the path is split by a small solver-backed exploration of the two flag
+    functions under the path condition, so that every resulting path again has concrete flags."""
     ex = v1sum.new_exec(prog, [], 0)
     rt = result_type(kind)
+    out = []
     for p in paths:
         p.witness = None
         if p.outcome[0] != 'ret':
             p.inc = None
             p.comp = None
+            out.append(p)
             continue
-        ex.begin([], replay_only=True)
         v = p.outcome[1]
-        p.inc = models.dispatch(ex, '<%s as PartialResult>::is_incomplete' % rt, [Ref(Cell(v))], {'generics': {}})
-        ex.begin([], replay_only=True)
-        p.comp = models.dispatch(ex, '<%s as PartialResult>::is_complete' % rt, [Ref(Cell(v))], {'generics': {}})
-        if not isinstance(p.inc, bool) or not isinstance(p.comp, bool):
-            raise Unsupported('is_incomplete / is_complete not concrete on a path outcome')
+        try:
+            ex.begin([], replay_only=True)
+            p.inc = models.dispatch(ex, '<%s as PartialResult>::is_incomplete' % rt, [Ref(Cell(v))], {'generics': {}})
+            ex.begin([], replay_only=True)
+            p.comp = models.dispatch(ex, '<%s as PartialResult>::is_complete' % rt, [Ref(Cell(v))], {'generics': {}})
+            if not isinstance(p.inc, bool) or not isinstance(p.comp, bool):
+                raise Unsupported('is_incomplete / is_complete not concrete on a path outcome')
+            out.append(p)
+        except Unsupported:
+            if ctx is None:
+                raise
+            out += _split_by_flags(prog, ctx, rt, p)
+    if len(out) != len(paths) or any(a is not b for a, b in zip(out, paths)):
+        for i, p in enumerate(out):
+            p.idx = i
+        paths[:] = out
+
+
+def _split_by_flags(prog, ctx, rt, p):
+    ex2 = v1sum.new_exec(prog, [ctx], ctx.lmax)
+    ex2.suffix = '%s_fl%d' % (ctx.suffix, p.idx)
+    v = p.outcome[1]
+
+    def run(e):
+        for kind_, c in p.items:
+            e.assume(c, kind_)
+        inc = models.dispatch(e, '<%s as PartialResult>::is_incomplete' % rt, [Ref(Cell(v))], {'generics': {}})
+        comp = models.dispatch(e, '<%s as PartialResult>::is_complete' % rt, [Ref(Cell(v))], {'generics': {}})
+        return Tuple([inc, comp])
+    res = explore(ex2, run, base_axioms=ctx.axioms)
+    out = []
+    for sc, items, outc, notes in res:
+        if outc[0] != 'ret' or not all(isinstance(x, bool) for x in outc[1].items):
+            raise Unsupported('is_incomplete / is_complete panic or stay symbolic on a path outcome')
+        q = v1sum.Path(p.script, items, p.outcome, p.notes, p.idx)
+        q.witness = None
+        q.inc, q.comp = outc[1].items
+        out.append(q)
+    if not out:
+        raise Unsupported('classification of a path outcome has no feasible case')
+    return out
 
 
 def is_ok_unknown(p):
@@ -1140,8 +1180,12 @@ def c12_classes(orc, kind):
     out.append(('byte after CR', z3.And(g.hascr, g.c + 1 < c.L, c.S(g.c + 1) != LF, g.c + 2 <= 107, utf, wf_body), ['InvalidSuffix']))
     # the 107-byte limit
     out.append(('107-byte limit', z3.And(g.terminated_any_len(), g.c + 2 > 107, utf, wf_body), ['HeaderTooLong']))
-    if kind == 'bytes':
+    if v1sum.base(kind) == 'bytes':
         out.append(('invalid UTF-8', z3.And(term, z3.Not(c.valid_utf8_prefix(g.c + 2)), g.kw_ok(), unknown_rest), ['InvalidUtf8']))
+        # the byte that follows the CR is not LF *and* starts a multi-byte character (the examined window then ends
+        # inside that character): blamed on the suffix or on the encoding, terminally either way
+        out.append(('byte after CR (UTF-8 lead byte)', z3.And(g.hascr, g.c + 1 < c.L, c.S(g.c + 1) >= 0xC2, c.S(g.c + 1) <= 0xF4, g.c + 2 <= 107,
+                                                            c.valid_utf8_prefix(g.c + 1), wf_body), ['InvalidSuffix', 'InvalidUtf8']))
     return out
 
 
@@ -1209,17 +1253,18 @@ def ob_val_literal(W, kind, idx, params):
     if len(got) != 1:
         return [{'label': 'val_literal', 'status': 'error', 'detail': 'literal %r drives %d paths of entry %s (expected exactly 1)' % (lit, len(got), kind)}]
     sc, items_, outc, notes = got[0]
-    p1 = v1sum.Path(sc, items_, outc, notes, -1)
-    annotate(prog, kind, [p1])
-    s = z3.Solver()
-    s.set('arith.solver', 2)
-    for a_ in fixed:
-        s.add(a_)
-    for c in p1.pc:
-        s.add(c)
-    if s.check() != z3.sat:
-        return [{'label': 'val_literal', 'status': 'error', 'detail': 'literal %r: path condition not satisfiable' % (lit,)}]
-    return [{'label': 'val_literal', 'status': 'ok', 'witness': lit.hex(), 'want': render(p1, kind, s.model())}]
+    cands = [v1sum.Path(sc, items_, outc, notes, 0)]
+    annotate(prog, kind, cands, ctx)        # may split the path when the flags depend on an error payload
+    for p1 in cands:
+        s = z3.Solver()
+        s.set('arith.solver', 2)
+        for a_ in fixed:
+            s.add(a_)
+        for c in p1.pc:
+            s.add(c)
+        if s.check() == z3.sat:
+            return [{'label': 'val_literal', 'status': 'ok', 'witness': lit.hex(), 'want': render(p1, kind, s.model())}]
+    return [{'label': 'val_literal', 'status': 'error', 'detail': 'literal %r: path condition not satisfiable' % (lit,)}]
 
 
 # ------------------------------------------------------------------ C06: auto-detection glue
